@@ -37,7 +37,7 @@ TopMatches(v, t) ==
        [] OTHER -> TRUE
 
 (* the next step of the model executes no opcode *)
-Silent(m) == Running(m) /\ (Top(m).fk = "hook" \/ Top(m).ptr + 1 > Len(m.code))
+Silent(m) == Running(m) /\ (IF Top(m).fk = "hook" THEN TRUE ELSE Top(m).ptr + 1 > Len(m.code))
 
 OpMatches(m, e) ==
   LET f == Top(m)
